@@ -311,11 +311,42 @@ def validate_traces(ctx, mode, res, items, stage):
     return accepted
 
 
+BATCH = 1500    # behaviours per driver process: Engine.Close leaves its commit-timer goroutine behind, so one
+                # process must not open tens of thousands of engines
+
+
+def _drive_batches(ctx, mode, items, stage, timeout):
+    """Run the driver in batches and merge the results (counters summed, trace files of the same
+    budget constants concatenated; behaviour indices are global through VERIF_BASE)."""
+    total = None
+    merged = {}
+    for base in range(0, max(1, len(items)), BATCH):
+        part = items[base:base + BATCH]
+        res, out, rc = ctx.go_test(PKG, TEST, inp=part, env={"VERIF_MODE": mode, "VERIF_WORKERS": 10, "VERIF_BASE": base},
+                                   timeout=timeout)
+        res = ctx.need_result(res, out, rc, "%s %s batch %d" % (TEST, stage, base // BATCH))
+        for key, path in (res.get("consts", {}).get("groups") or {}).items():
+            dst = os.path.join(ctx.tmp, "trace_%s_%s.ndjson" % (stage, key))
+            with open(path) as f, open(dst, "a") as g:
+                g.write(f.read())
+            merged[key] = dst
+        if total is None:
+            total = res
+        else:
+            for k, v in (res.get("counters") or {}).items():
+                total["counters"][k] = total["counters"].get(k, 0) + v
+            for k in ("mismatches", "samples", "notes"):
+                total[k] = (total.get(k) or []) + (res.get(k) or [])
+            total["steps"] = total.get("steps", 0) + res.get("steps", 0)
+            total["distinct"] = total.get("distinct", 0) + res.get("distinct", 0)
+    total.setdefault("consts", {})["groups"] = merged
+    return total
+
+
 def drive(ctx, mode, items, stage, timeout=7200):
     """Replay the behaviours on the real DBV2.  Returns the driver result; mismatches become
     violations of the calling property (signature = mismatch class)."""
-    res, out, rc = ctx.go_test(PKG, TEST, inp=items, env={"VERIF_MODE": mode, "VERIF_WORKERS": 10}, timeout=timeout)
-    res = ctx.need_result(res, out, rc, TEST + " " + stage)
+    res = _drive_batches(ctx, mode, items, stage, timeout)
     if res.get("consts", {}).get("maxResetLimit") != CODE_MAX_RESET:
         raise Infra("maxResetLimit of the code is %s: re-instantiate MaxResetLimit in specs/MetaDB*.cfg" %
                     res.get("consts", {}).get("maxResetLimit"))
